@@ -15,6 +15,15 @@ the support of the base, differentiable with `|det T'| = exp(logabsdet)` (C01) a
 then `exp ∘ log_prob` integrates to one.  Programs (compositions) of such transforms are again such transforms, by
 structural induction — so the statement holds for every nesting, not only those that fit a quadrature grid.
 Differentiability of neural conditioners is a hypothesis (ReLU kinks are a null set; DESIGN §8.4).
+
+**Limits of what is proved** (external audit): the everywhere-differentiability hypothesis on the row map through a conditioner
+(`ARRowHyp.hdiff`, `CouplingRowHyp.hdiff` in `Properties/C03ND.lean`) is satisfied by smooth conditioners only and is discharged
+in this tree for constant / affine conditioners — NOT for the library's default ReLU networks, for which an almost-everywhere
+(cell-wise) change of variables would be needed and is not proved; the conditioner-free layers (CDF transforms, permutations,
+LU / QR / SVD) and the 1-D flows have no such hypothesis.  All normalisation theorems are for bijections of the whole line / ℝⁿ
+with a Gaussian base: no theorem for a flow on a box (bounded splines, `Sigmoid` onto `(0,1)` with a uniform base), for a
+`MADEMoG` base, or with an embedding network (context enters as arbitrary parameters).  `flow_normalised_prog(N)` quantify over
+abstract diffeomorphisms; the executed statements are the `ExecLayer` ones of `C03ND`.
 -/
 open MeasureTheory
 
